@@ -114,8 +114,7 @@ def r13_8(ctx: Ctx) -> None:
     adds = [c for c in q.calls(f) if attr_tail(c) == "add" and isinstance(c.func.value, ast.Name) and c.args and isinstance(c.args[0], ast.Name)]
     path_sets = {}
     for c in adds:
-        vals = q.assigned_values(f, c.args[0].id)
-        if any(isinstance(v, ast.Call) and (dotted(v.func) or "").endswith("get_sanitized_output_path") for v in vals):
+        if q.derives_from(f, c.args[0], lambda v: isinstance(v, ast.Call) and (dotted(v.func) or "").endswith("get_sanitized_output_path"), depth=3):
             path_sets[c.func.value.id] = c
     ctx.floor("R13.8", len(path_sets), 1, "set of output paths in _extract")
     cfg = cfg_of(f.node)
@@ -136,6 +135,11 @@ def r13_8(ctx: Ctx) -> None:
                     ok = True
         # every member's path is added: the add is not conditional on the test
         every = addc is not None and not any(pol is not None and isinstance(cd, ast.Compare) and norm(cd.comparators[0]) == sname for cd, pol in q.facts_at(f, addc) if isinstance(cd, ast.Compare) and cd.comparators)
+        # the key is the file the path LEADS to (links already in the destination resolved): 'lib/f' and 'lib64/f' are one file when lib -> lib64
+        resolved = q.derives_from(f, addc.args[0], lambda v: isinstance(v, ast.Call) and ((dotted(v.func) or "").endswith("realpath") or attr_tail(v) == "resolve"), depth=3)
+        ctx.check(resolved, "R13.8", f, addc, "output paths are compared after resolving links that exist in the destination",
+                  f"the set `{sname}` holds the TEXT of the output paths: with a link in the destination ('lib' -> 'lib64') the members 'lib/f' and 'lib64/f' of two folders are written to one "
+                  "file at the same time and the schedule decides whose content survives", construct="output paths compared as text")
         ctx.check(ok and every, "R13.8", f, addc, "members that share an output path are extracted in archive order",
                   f"two members with different names can be written to one output path ('a' and 'x/../a'): the set `{sname}` of output paths is not consulted before a path is added, "
                   "or a hit does not switch parallel extraction off - two workers write the same file and the schedule decides whose content survives",
